@@ -11,6 +11,7 @@ Writes /verif/seeded/RESULTS.md.  /repo must be clean when this starts.
 import json, os, subprocess, sys, time
 
 V = os.path.dirname(os.path.dirname(os.path.abspath(__file__)))
+REPO = os.environ.get("SEED_REPO", "/repo")   # a copy may be used while other work builds against /repo
 SEEDED = os.path.join(V, "seeded")
 
 def sh(cmd, **kw):
@@ -30,7 +31,7 @@ def main():
             only = a.pop(0)
         elif x == "--props":
             allprops = a.pop(0) == "all"
-    rc, out = sh(["git", "-C", "/repo", "status", "--porcelain", "--untracked-files=no"])
+    rc, out = sh(["git", "-C", REPO, "status", "--porcelain", "--untracked-files=no"])
     dirty = [l for l in out.splitlines() if l.strip() and "elementsd-tests/bin" not in l]
     if dirty:
         print("refusing to run: /repo has local modifications:\n" + "\n".join(dirty))
@@ -46,7 +47,7 @@ def main():
         meta = json.load(open(os.path.join(d, "meta.json")))
         prop = meta["property"]
         props = claimed if allprops else [prop]
-        rc, out = sh(["git", "-C", "/repo", "apply", patch])
+        rc, out = sh(["git", "-C", REPO, "apply", patch])
         if rc != 0:
             rows.append((sid, prop, tier, "PATCH-FAILED", out.strip()[:200]))
             continue
@@ -63,8 +64,8 @@ def main():
                 rows.append((sid, p, tier, verdict, "%s %.0fs %s" % (",".join(kinds), time.time() - t0, (viol[0][:160] if viol else ""))))
                 print(rows[-1])
         finally:
-            sh(["git", "-C", "/repo", "checkout", "--", "."])
-            sh(["git", "-C", "/repo", "clean", "-fdq", "tests/"])
+            sh(["git", "-C", REPO, "checkout", "--", "."])
+            sh(["git", "-C", REPO, "clean", "-fdq", "tests/"])
     # after restoring, rebuild evidence of the touched properties on the clean tree is the caller's job
     with open(os.path.join(SEEDED, "RESULTS.md"), "a") as f:
         f.write("\n## run %s tier=%s\n\n| seeded change | property | tier | verdict | how |\n|---|---|---|---|---|\n" % (time.strftime("%Y-%m-%d %H:%M"), tier))
